@@ -695,6 +695,158 @@ def dispatcher(ctx):
             "mathml-text-integration-point", h.where, "isMathMLTextIntegrationPoint no longer tests (namespace, name) membership")
 
 
+# ---------------------------------------------------------------------------- C01.13 formatting list / breakout
+def _is_marker_test(test, var):
+    """`var == Marker` / `var is Marker` -> "eq"; `var != Marker` / `var is not Marker` -> "ne"; else None"""
+    if isinstance(test, ast.Compare) and len(test.ops) == 1:
+        a, b = norm(test.left), norm(test.comparators[0])
+        if {a, b} == {var, "Marker"}:
+            return "eq" if isinstance(test.ops[0], (ast.Eq, ast.Is)) else "ne" if isinstance(test.ops[0], (ast.NotEq, ast.IsNot)) else None
+    return None
+
+
+def formatting_rules(ctx):
+    """C01.13:
+    (a) every backward scan of the list of active formatting elements stops at the last marker;
+    (b) after an adoption-agency run for an implied end tag, the stale element is removed from *both* the stack of open
+        elements and the list of active formatting elements;
+    (c) the start-tag "breakout" in foreign content pops until the current node is an HTML element, an HTML integration
+        point or a MathML text integration point."""
+    r = ctx.r
+    ce = ctx.ce
+    repo = ctx.repo
+    # (a)
+    n_scans = 0
+    for rel in (PARSER_REL, "treebuilders/base.py"):
+        for f in repo.module(rel).all_functions:
+            in_afe_class = f.cls is not None and f.cls.name == "ActiveFormattingElements"
+            for node in walk_no_nested(f.node):
+                if isinstance(node, ast.For) and isinstance(node.target, ast.Name):
+                    it = node.iter
+                    seq = None
+                    if isinstance(it, ast.Subscript) and norm(it.slice) == "::-1":
+                        seq = it.value
+                    elif isinstance(it, ast.Call) and norm(it.func) == "reversed" and len(it.args) == 1:
+                        seq = it.args[0]
+                    if seq is None:
+                        continue
+                    ch = attr_chain(seq) or []
+                    if not ((ch and ch[-1] == "activeFormattingElements") or (in_afe_class and ch == ["self"])):
+                        continue
+                    n_scans += 1
+                    var = node.target.id
+                    key = "marker-stops-scan::%s::for-%s" % (f.qual, var)
+                    where = "%s:%d" % (rel, node.lineno)
+                    tests = [x for x in ast.walk(node) if isinstance(x, ast.If) and _is_marker_test(x.test, var) == "eq"]
+                    first = node.body[0] if node.body else None
+                    ok = bool(tests) and tests[0] is first and isinstance(tests[0].body[-1], (ast.Break, ast.Return))
+                    r.idiom("C01.13", ok, key, where, "backward scan of the formatting list in %s: marker test not recognised" % f.qual,
+                            wrong=[(bool(tests) and isinstance(tests[0].body[-1], (ast.Continue, ast.Pass)),
+                                    "%s: the backward scan of the list of active formatting elements skips a marker instead of "
+                                    "stopping at it (elements before the last marker are compared / returned)" % f.qual),
+                                   (not tests and not any("Marker" in norm(x) for x in ast.walk(node) if isinstance(x, ast.Compare)),
+                                    "%s: the backward scan of the list of active formatting elements never tests for a marker" % f.qual)],
+                            detail={"function": f.qual, "loop": "for"})
+                elif isinstance(node, ast.While):
+                    # while-scans: `while <entry> != Marker and ...` over the formatting list
+                    conj = node.test.values if isinstance(node.test, ast.BoolOp) and isinstance(node.test.op, ast.And) else [node.test]
+                    body_txt = " ".join(norm(x) for x in node.body)
+                    if "activeFormattingElements" not in body_txt and "activeFormattingElements" not in norm(node.test):
+                        continue
+                    vars_ = {t.id for st in node.body for t in ast.walk(st) if isinstance(t, ast.Name) and isinstance(t.ctx, ast.Store)}
+                    scanned = [v for v in vars_ if any(isinstance(st, ast.Assign) and norm(st.targets[0]) == v and
+                                                       "activeFormattingElements" in norm(st.value) for st in ast.walk(node))]
+                    test_names = {x.id for x in ast.walk(node.test) if isinstance(x, ast.Name)}
+                    scanned = [v for v in scanned if v in test_names]
+                    if not scanned:
+                        continue
+                    n_scans += 1
+                    var = scanned[0]
+                    key = "marker-stops-scan::%s::while-%s" % (f.qual, var)
+                    ok = any(_is_marker_test(c, var) == "ne" for c in conj)
+                    r.idiom("C01.13", ok, key, "%s:%d" % (rel, node.lineno),
+                            "%s: while-scan of the formatting list: marker conjunct not recognised" % f.qual,
+                            wrong=[(not any("Marker" in norm(c) for c in conj) and not any("Marker" in norm(x) for x in ast.walk(node)),
+                                    "%s: the loop over the list of active formatting elements does not stop at a marker" % f.qual)],
+                            detail={"function": f.qual, "loop": "while"})
+    if n_scans < 5:
+        raise AnalysisError("C01.13: %d backward scans of the formatting list found (expected >= 5)" % n_scans)
+    # (b)
+    n_b = 0
+    for f in repo.module(PARSER_REL).all_functions:
+        locs = {}
+        for st in walk_no_nested(f.node):
+            if isinstance(st, ast.Assign) and isinstance(st.targets[0], ast.Name) and isinstance(st.value, ast.Call) and \
+                    (attr_chain(st.value.func) or [""])[-1] == "elementInActiveFormattingElements":
+                locs[st.targets[0].id] = st
+        if not locs:
+            continue
+        calls = [c for c in walk_no_nested(f.node) if isinstance(c, ast.Call) and (attr_chain(c.func) or [""])[-1] in ("endTagFormatting",)
+                 and c.args and isinstance(c.args[0], ast.Call) and norm(c.args[0].func) == "impliedTagToken"]
+        if not calls:
+            continue
+        for v in locs:
+            removed = set()
+            for c in walk_no_nested(f.node):
+                if isinstance(c, ast.Call) and isinstance(c.func, ast.Attribute) and c.func.attr == "remove" and c.args and norm(c.args[0]) == v \
+                        and c.lineno > calls[0].lineno:
+                    removed.add((attr_chain(c.func.value) or [""])[-1])
+            n_b += 1
+            key = "stale-formatting-element::%s::%s" % (f.qual, v)
+            r.check("C01.13", {"openElements", "activeFormattingElements"} <= removed, key, f.where,
+                    "%s: after running the adoption agency for the implied end tag, %s is removed only from %s; the standard removes it "
+                    "from both the stack of open elements and the list of active formatting elements (it can survive the algorithm "
+                    "when it is not in scope)" % (f.qual, v, sorted(removed) or "neither list"),
+                    {"function": f.qual, "removed_from": sorted(removed)}, detail={"function": f.qual, "removed_from": sorted(removed)})
+    if n_b < 1:
+        raise AnalysisError("C01.13: no handler runs the adoption agency for an element found in the formatting list")
+    # (c)
+    f = repo.func(PARSER_REL, "InForeignContentPhase.processStartTag")
+    loops = [n for n in walk_no_nested(f.node) if isinstance(n, ast.While) and
+             any(isinstance(c, ast.Call) and norm(c.func).endswith("openElements.pop") for st in n.body for c in ast.walk(st))]
+    if len(loops) != 1:
+        raise AnalysisError("InForeignContentPhase.processStartTag: breakout pop loop not found")
+    loop = loops[0]
+    ns_map = ce.const("constants.py", "namespaces")
+    interp = MiniInterp(ce, f.module)
+    for ns in ("html", "mathml", "svg"):
+        for hip in (False, True):
+            for mtip in (False, True):
+                if ns == "html" and (hip or mtip) or (mtip and ns != "mathml") or (hip and mtip):
+                    continue
+
+                def hook(node, local, ns=ns, hip=hip, mtip=mtip):
+                    t = norm(node)
+                    if t == "self.tree.openElements[-1].namespace":
+                        return ns_map[ns]
+                    if t == "self.tree.defaultNamespace":
+                        return ns_map["html"]
+                    if t == "self.parser.isHTMLIntegrationPoint(self.tree.openElements[-1])":
+                        return hip
+                    if t == "self.parser.isMathMLTextIntegrationPoint(self.tree.openElements[-1])":
+                        return mtip
+                    return NotImplemented
+                saved = ce.hook
+                ce.hook = hook
+                try:
+                    try:
+                        got = interp.eval_guard(loop.test, {"self": Opaque("self")})
+                    except Exception as e:       # noqa: BLE001 -- unrecognised guard shape
+                        got = None
+                finally:
+                    ce.hook = saved
+                exp = not (ns == "html" or hip or mtip)
+                key = "breakout[ns=%s hip=%d mtip=%d]" % (ns, hip, mtip)
+                if got is None:
+                    r.idiom("C01.13", False, key, "%s:%d" % (PARSER_REL, loop.lineno), "breakout loop guard not evaluable")
+                    continue
+                r.check("C01.13", bool(got) == exp, key, "%s:%d" % (PARSER_REL, loop.lineno),
+                        "foreign-content breakout: with the current node in the %s namespace (HTML integration point=%s, MathML text "
+                        "integration point=%s) the loop %s popping; the standard %s" % (
+                            ns, hip, mtip, "keeps" if got else "stops", "keeps popping" if exp else "stops there"),
+                        {"case": key}, detail={"case": key, "pops": bool(got)})
+
+
 # ---------------------------------------------------------------------------- C01.10 quirks mode
 QUIRKS_EXACT = {"-//w3o//dtd w3 html strict 3.0//en//", "-/w3c/dtd html 4.0 transitional/en", "html"}
 QUIRKS_SYSTEM = "http://www.ibm.com/data/dtd/v11/ibmxhtml1-transitional.dtd"
@@ -1059,6 +1211,7 @@ def run(ctx):
     r.rule("C01.9", "tree construction dispatcher (insertion mode vs foreign content) and integration-point predicates equal the standard's", floor=120)
     r.rule("C01.10", "quirks / limited-quirks decision equals the standard's for representative DOCTYPE tokens", floor=500)
     r.rule("C01.11", "a delegation whose result is discarded cannot lose a reprocess request", floor=50)
+    r.rule("C01.13", "formatting-list scans stop at markers; stale formatting element removed from both lists; foreign breakout pops to an HTML element or integration point", floor=10)
     r.rule("C01.12", "insertion-mode transitions: each switch is one the standard's steps for that mode and token make; each required switch is reachable", floor=120)
     r.rule("C01.5", "evaluated element tables equal the transcribed WHATWG sets (entries marked either-way excepted)", floor=300)
     ambient(ctx)
@@ -1072,6 +1225,7 @@ def run(ctx):
     dispatcher(ctx)
     quirks(ctx)
     return_propagation(ctx)
+    formatting_rules(ctx)
     from . import modes
     modes.run(ctx, "C01.12")
     standard_tables(ctx)
@@ -1085,6 +1239,14 @@ def thorough(ctx):
 def mutants():
     from ..selftest import TextMutant as T
     return [
+        T("afe-scan-crosses-marker", "treebuilders/base.py",
+          "            if item == Marker:\n                break", "            if item == Marker:\n                continue", "C01.13"),
+        T("clear-afe-ignores-marker", "treebuilders/base.py",
+          "        while self.activeFormattingElements and entry != Marker:", "        while self.activeFormattingElements:", "C01.13"),
+        T("a-stays-on-stack", "html5parser.py",
+          "            if afeAElement in self.tree.openElements:\n                self.tree.openElements.remove(afeAElement)\n", "", "C01.13"),
+        T("breakout-ignores-html-ip", "html5parser.py",
+          "                   not self.parser.isHTMLIntegrationPoint(self.tree.openElements[-1]) and\n", "", "C01.13"),
         T("mode-tr-to-cell", "html5parser.py",
           "        self.tree.insertElement(token)\n        self.parser.phase = self.parser.phases[\"inRow\"]\n",
           "        self.tree.insertElement(token)\n        self.parser.phase = self.parser.phases[\"inCell\"]\n", "C01.12"),
